@@ -9,22 +9,32 @@ from vlib.core import HarnessError
 
 LEVEL = "exploration"
 RULE = (
-    "Hypothesis draws the 16-byte calling and called AE-title fields of a raw A-ASSOCIATE-RQ (exact, left/right/both padded, case variants, "
-    "embedded spaces, near misses of the acceptor's title and of the required-calling list), the policy (require_calling_aet list with padded "
-    "entries, require_called_aet on/off), a user-identity item (types 1-5 or none) and the EVT_USER_ID handler (unbound / verdict True / verdict "
-    "False / raises). The raw peer sends the request, reads the reply and then sends a C-ECHO request regardless. Oracle (independent policy "
-    "model): A-ASSOCIATE-AC iff every enabled check passes; otherwise A-ASSOCIATE-RJ whose (result, source, reason) belongs to a check that "
-    "failed; the C-ECHO handler never runs on a connection that was not accepted (and runs once on an accepted one). "
-    "Non-trivial = a title that differs from an allowed one only by padding, case or an embedded space."
+    "Hypothesis draws FIRST the set of acceptance checks that shall fail (none, every singleton, every pair, all three of calling / called / "
+    "identity; singletons most often) and then builds the configuration that realises exactly that set: the acceptor's own AE title (plain, "
+    "with an embedded space, one character, 16 characters, padded), require_called_aet, the require_calling_aet list (padded entries, entries "
+    "with embedded spaces, one entry a prefix of another, a one-character entry), the 16-byte calling and called fields of a raw A-ASSOCIATE-RQ "
+    "and the user-identity item (types 1-5 or none) with the EVT_USER_ID handler (unbound / positive verdict / verdict False / falsy non-bool "
+    "verdict None, 0, '' / raises ValueError, KeyError, Exception). A title that must pass is the exact title with generated leading/trailing "
+    "padding; a title that must fail is a near miss whose KIND is drawn first: other case, embedded space added/removed/doubled, proper prefix, "
+    "proper suffix, inner fragment, single character of the title, superstring (title + character, character + title, title twice), or "
+    "unrelated; near misses are also sent when the check is disabled (then they must be accepted). The raw peer sends the request, reads the "
+    "reply and then sends a C-ECHO request regardless. Oracle (independent policy model refs/policy_ref.py evaluated on the bytes actually "
+    "sent; the generator's intended failing set is cross-checked against it, a disagreement is a harness error): A-ASSOCIATE-AC iff every "
+    "enabled check passes; otherwise A-ASSOCIATE-RJ whose (result, source, reason) belongs to a check that failed; the C-ECHO handler never "
+    "runs on a connection that was not accepted (and runs once on an accepted one). Violation keys are structural (failed checks, identity "
+    "handler behaviour class, reply kind); the near-miss kind is in the message only. "
+    "Non-trivial = an enabled title check sees a title that differs from an allowed one only by padding, case, an embedded space, or is a prefix / suffix / fragment / character / superstring of it."
 )
 ASSUMPTIONS = [
     "E4 substitution table; the acceptor is a real AssociationServer/Association/DUL stack, the requestor raw bytes from the E1 reference encoder",
-    "AE titles compare case-sensitively with leading/trailing spaces ignored (PS3.8 Table 9-11 and the AE docs); only legal AE characters are generated",
+    "AE titles compare case-sensitively and as whole strings with leading/trailing spaces ignored (PS3.8 Table 9-11 and the AE docs); only legal AE characters are generated",
+    "the acceptor's own title is AE.ae_title (the server is started without an ae_title override)",
     "documented reject codes: calling (1,1,3), called (1,1,7), identity (2,2,1)",
 ]
 SHARDS = {"quick": 1, "thorough": 16}
 OWN = "ANY-SCP"
 ALLOWED = ["ALPHA", "Beta Two", "GAMMA_LONG_TITLE"]
+CODES = {(1, 1, 3): "calling", (1, 1, 7): "called", (2, 2, 1): "identity"}
 
 
 def _field(s, lead):
@@ -39,7 +49,11 @@ def check_policy(ctx, case):
     req_calling = case["require_calling"]
     ident = case["identity"]
     handler = case["handler"]
-    accept, allowed = policy_ref.decide(calling, called, OWN, req_calling, case["require_called"], ident, handler)
+    own = case.get("own", OWN)
+    accept, allowed = policy_ref.decide(calling, called, own, req_calling, case["require_called"], ident, handler)
+    which = "+".join(sorted(CODES[c] for c in allowed)) or "none"
+    if "intent" in case and "+".join(sorted(case["intent"])) != (which if which != "none" else ""):
+        raise HarnessError(f"generator meant the checks {case['intent']} to fail, the policy model says {which}: {case}")
 
     rq = dataclasses.replace(SC.RAW_RQ)
     ui = list(rq.user_info)
@@ -61,22 +75,25 @@ def check_policy(ctx, case):
     if handler is not None:
         def on_id(event):
             if handler.get("raises"):
-                raise ValueError("identity backend down")
+                raise {"KeyError": KeyError, "Exception": Exception}.get(handler["raises"], ValueError)("identity backend down")
             return handler.get("verdict"), (b"token" if handler.get("response") else None)
 
         extra.append((evt.EVT_USER_ID, on_id))
 
     sc = {"timeouts": {"acse": 3, "dimse": 3, "network": 6}, "max_steps": 15000,
-          "acceptor": {"kind": "pynetdicom", "handlers": {}, "require_called": case["require_called"], "require_calling": req_calling, "extra_handlers": extra},
+          "acceptor": {"kind": "pynetdicom", "title": own, "handlers": {}, "require_called": case["require_called"], "require_calling": req_calling, "extra_handlers": extra},
           "requestors": [{"kind": "raw", "script": script}], "schedule": case["schedule"]}
     out = SC.run(sc)
     peer = out["raw"][0]
     if peer.error:
         raise HarnessError(f"raw peer failed: {peer.error}")
-    near = case.get("near", "exact")
-    ctx.note({k: v for k, v in case.items()}, nontrivial=near not in ("exact", "other"), classes=["accept" if accept else "reject", "near:" + near,
-             "id:" + (str(ident["type"]) if ident else "none"), "handler:" + ("unbound" if handler is None else ("raises" if handler.get("raises") else repr(handler.get("verdict")))),
-             "calling-list" if req_calling else "no-calling-list", "called-check" if case["require_called"] else "no-called-check"])
+    l1, l2 = case.get("near_called", case.get("near", "exact")), case.get("near_calling", "exact")
+    near = f"called={l1},calling={l2}"
+    hb = "unbound" if handler is None else ("raises" if handler.get("raises") else "positive" if handler.get("verdict") is True else "False" if handler.get("verdict") is False else "falsy-nonbool")
+    ctx.note({k: v for k, v in case.items()}, nontrivial=(l1 in NEAR_LABELS and case["require_called"]) or (l2 in NEAR_LABELS and bool(req_calling)),
+             classes=["accept" if accept else "reject", "fails:" + which, "called:" + l1, "calling:" + l2, "own:" + own,
+                      "id:" + (str(ident["type"]) if ident else "none"), "handler:" + hb,
+                      "calling-list" if req_calling else "no-calling-list", "called-check" if case["require_called"] else "no-called-check"])
     if out["how"] == "budget":
         ctx.inconclusive += 1
         return
@@ -87,19 +104,22 @@ def check_policy(ctx, case):
     first = peer.received[0] if peer.received else None
     kind = {2: "AC", 3: "RJ", 7: "ABORT"}.get(first[0], "?") if first else "NONE"
     what = f"calling={calling!r} called={called!r} require_calling={req_calling} require_called={case['require_called']} identity={ident} handler={handler}"
-    which = "+".join(sorted({(1, 1, 3): "calling", (1, 1, 7): "called", (2, 2, 1): "identity"}[c] for c in allowed)) or "none"
+    what += f" own={own!r} near-miss kinds: {near}"
+    # structural keys: which checks failed / which one fired, and the identity handler's behaviour class when that check is involved
+    idk = f":handler={hb}" if "identity" in which else ""
     if accept:
         if kind != "AC":
-            ctx.fail("rejected-although-allowed", f"near:{near}:{kind}", f"policy allows the association but the reply was {kind} {first[6:10].hex() if first else ''}; {what}")
+            code = (first[7], first[8], first[9]) if kind == "RJ" else ""
+            ctx.fail("rejected-although-allowed", f"{kind}:{CODES.get(code, code)}", f"policy allows the association but the reply was {kind} {code}; {what}")
             return
         if len(echo_calls) != 1:
             ctx.fail("echo-handler-count", "accepted", f"C-ECHO handler ran {len(echo_calls)} times on an accepted association; {what}")
     else:
         if kind == "AC":
-            ctx.fail("accepted-although-forbidden", f"failed:{which}:near:{near}", f"policy forbids the association ({which}) but it was accepted; {what}")
+            ctx.fail("accepted-although-forbidden", f"failed:{which}{idk}", f"policy forbids the association ({which}) but it was accepted; {what}")
             return
         if kind != "RJ":
-            ctx.fail("no-reject-pdu", f"failed:{which}:{kind}", f"expected A-ASSOCIATE-RJ, got {kind}; {what}")
+            ctx.fail("no-reject-pdu", f"failed:{which}{idk}:{kind}", f"expected A-ASSOCIATE-RJ, got {kind}; {what}")
             return
         code = (first[7], first[8], first[9])
         if code not in allowed:
@@ -111,48 +131,109 @@ def check_policy(ctx, case):
 CHECKS = {"policy": check_policy}
 
 
+NEAR_LABELS = ("padding", "case", "embedded-space", "prefix", "suffix", "fragment", "char", "superstring")
+OWN_TITLES = [OWN, OWN, "ARCHIVE-SCP 01", "ARCHIVE-SCP 01", "A", "SIXTEEN_CHARS_OK", "  PAD SCP ", "Store_Scp"]
+CALLING_LISTS = [ALLOWED, [" " + ALLOWED[0] + "  ", ALLOWED[1]], [ALLOWED[2]], ["STORE SCU 1", "ALPHA"], ["ALPHA", "ALPHABET"], ["Q"], ["  PAD SCU "]]
+FAIL_SETS = [[], [], [], [], ["calling"], ["calling"], ["called"], ["called"], ["called"], ["identity"], ["identity"], ["identity"],
+             ["calling", "called"], ["calling", "identity"], ["called", "identity"], ["calling", "called", "identity"]]
+FAILING_HANDLERS = [{"raises": True}, {"raises": True}, {"raises": "KeyError"}, {"raises": "Exception"}, {"verdict": False}, {"verdict": False}, {"verdict": None}, {"verdict": 0}, {"verdict": ""}]
+PASSING_HANDLERS = [{"verdict": True}, {"verdict": True, "response": True}]
+
+
+def near_misses(base, taken=()):
+    """[(string, label)]: legal 1..16-character titles that do NOT match `base` (nor any of `taken`) once leading/trailing spaces
+    are ignored, each a specific kind of near miss: different case, embedded space added/removed, proper prefix / suffix / inner
+    fragment / single character of the title, a superstring of it, or unrelated ('other')."""
+    b = base.strip(" ")
+    n = len(b)
+    out = [(b.lower(), "case"), (b.upper(), "case"), (b.swapcase(), "case"), (b[:1] + b[1:].lower(), "case")]
+    out += [(b.replace("-", " "), "embedded-space"), (b.replace("_", " "), "embedded-space"), (b[:1] + " " + b[1:], "embedded-space"),
+            (b[: n // 2] + " " + b[n // 2 :], "embedded-space"), (b.replace(" ", ""), "embedded-space"), (b.replace(" ", "_"), "embedded-space"), (b.replace(" ", "  "), "embedded-space")]
+    for k in sorted({1, 2, n // 2, n - 2, n - 1} | {i for i, c in enumerate(b) if c in " -_"} | {i + 1 for i, c in enumerate(b) if c in " -_"}):
+        if 0 < k < n:
+            out += [(b[:k], "prefix" if k > 1 else "char"), (b[k:], "suffix" if n - k > 1 else "char")]
+    for i, j in ((1, n - 1), (1, 2), (n // 2, n // 2 + 1), (2, n - 2), (n // 3, 2 * n // 3 + 1)):
+        if 0 < i < j < n:
+            out.append((b[i:j], "fragment" if j - i > 1 else "char"))
+    out += [(b + "X", "superstring"), ("X" + b, "superstring"), (b + " X", "superstring"), (b + b[:1], "superstring"), (b + b, "superstring"), (b + "1", "superstring"), (b[-1:] + b, "superstring")]
+    out += [("INTRUDER", "other"), ("OTHER-SCP", "other"), ("ZZ", "other")]
+    bad = {b} | {t.strip(" ") for t in taken}
+    seen, res = set(), []
+    for t, label in out:
+        if not (1 <= len(t) <= 16) or not t.strip(" ") or t.strip(" ") in bad or t in seen:
+            continue
+        seen.add(t)
+        res.append((t, label))
+    return res
+
+
 def strategy(ctx):
     from hypothesis import strategies as st
 
-    def variants(base):
-        """(string, label) near misses of a title"""
-        out = [(base, "exact"), (base.lower(), "case"), (base.upper() if base.upper() != base else base.swapcase(), "case"), (base.replace("-", " ").replace("_", " ") if ("-" in base or "_" in base) else base[:1] + " " + base[1:], "embedded-space"),
-               (base[:-1], "other"), (base + "X", "other")]
-        return [(s[:16], l) for s, l in out if s.strip()]
-
     @st.composite
-    def title(draw, bases):
-        base = draw(st.sampled_from(bases))
-        s, label = draw(st.sampled_from(variants(base)))
+    def padded(draw, s, label):
+        """the 16-byte field of title `s` with generated leading padding (trailing padding fills the field)"""
+        s = s.strip(" ") if draw(st.booleans()) else s[:16]
         lead = draw(st.sampled_from([0, 0, 1, 3, 16 - len(s)]))
         lead = max(0, min(lead, 16 - len(s)))
-        if label == "exact" and (lead or len(s) < 16):
-            label = "padding" if lead else "exact"
-        if s == base:
-            label = "padding" if lead else "exact"
-        elif s.strip(" ") == base:
+        if label == "exact" and (lead or s != s.strip(" ")):
             label = "padding"
         return _field(s, lead), label
 
     @st.composite
+    def miss(draw, base, taken=()):
+        cands = near_misses(base, taken)
+        label = draw(st.sampled_from(sorted({l for _, l in cands})))  # kind first: every kind of near miss gets the same share
+        t = draw(st.sampled_from([t for t, l in cands if l == label]))
+        return draw(padded(t, label))
+
+    @st.composite
     def case(draw):
-        called, l1 = draw(title([OWN, "OTHER-SCP"]))
-        calling, l2 = draw(title(ALLOWED + ["INTRUDER"]))
-        req = draw(st.sampled_from([[], [], ALLOWED, [" " + ALLOWED[0] + "  ", ALLOWED[1]], [ALLOWED[2]]]))
-        ident = None
-        if draw(st.booleans()):
+        # which checks fail is drawn FIRST (every singleton and pair is frequent), then titles / identity / handler are built to realise it
+        intent = draw(st.sampled_from(FAIL_SETS))
+        own = draw(st.sampled_from(OWN_TITLES))
+        # ---- called AE title
+        if "called" in intent:
+            require_called = True
+            called, l1 = draw(miss(own))
+        else:
+            require_called = draw(st.booleans())
+            if require_called or draw(st.booleans()):
+                called, l1 = draw(padded(own, "exact"))
+            else:
+                called, l1 = draw(miss(own))
+        # ---- calling AE title
+        if "calling" in intent:
+            req = draw(st.sampled_from(CALLING_LISTS))
+            calling, l2 = draw(miss(draw(st.sampled_from(req)), req))
+        else:
+            req = draw(st.sampled_from([[]] + CALLING_LISTS))
+            if req:
+                calling, l2 = draw(padded(draw(st.sampled_from(req)), "exact"))
+            else:
+                ref = draw(st.sampled_from(CALLING_LISTS))
+                calling, l2 = draw(st.one_of(padded(ref[0], "exact"), miss(ref[0], ref)))
+        # ---- user identity
+        def identity():
             t = draw(st.integers(1, 5))
-            ident = {"type": t, "rsp": draw(st.integers(0, 1)), "primary": draw(st.binary(min_size=1, max_size=12)), "secondary": draw(st.binary(min_size=1 if t == 2 else 0, max_size=8))}
-        handler = draw(st.sampled_from([None, {"verdict": True}, {"verdict": True, "response": True}, {"verdict": False}, {"raises": True},
-                                        {"verdict": None}, {"verdict": 0}, {"verdict": ""}]))  # falsy non-bool verdicts are not positive verdicts
-        near = l1 if l1 not in ("exact",) else l2
-        if l2 in ("padding", "case", "embedded-space") and req:
-            near = l2
-        return {"calling": calling, "called": called, "require_calling": req, "require_called": draw(st.booleans()), "identity": ident, "handler": handler, "near": near,
+            return {"type": t, "rsp": draw(st.integers(0, 1)), "primary": draw(st.binary(min_size=1, max_size=12)), "secondary": draw(st.binary(min_size=1 if t == 2 else 0, max_size=8))}
+
+        if "identity" in intent:
+            ident, handler = identity(), draw(st.sampled_from(FAILING_HANDLERS))
+        else:
+            k = draw(st.sampled_from(["no-identity", "no-identity", "unbound", "positive", "positive"]))
+            if k == "no-identity":
+                ident, handler = None, draw(st.sampled_from([None] + PASSING_HANDLERS + FAILING_HANDLERS[:5]))  # the handler is not consulted
+            elif k == "unbound":
+                ident, handler = identity(), None
+            else:
+                ident, handler = identity(), draw(st.sampled_from(PASSING_HANDLERS))
+        return {"own": own, "calling": calling, "called": called, "require_calling": list(req), "require_called": require_called, "identity": ident, "handler": handler,
+                "near_called": l1, "near_calling": l2, "intent": sorted(intent),
                 "schedule": {"policy": draw(st.sampled_from(["fifo", "random"])), "seed": draw(st.integers(0, 9999)), "preemptions": [], "nudges": []}}
 
     return case()
 
 
 def run(ctx):
-    ctx.hyp("policy", strategy(ctx), 200 if ctx.quick else 1500)
+    ctx.hyp("policy", strategy(ctx), 300 if ctx.quick else 2000)
